@@ -68,22 +68,22 @@ func randSched(r *rng, n int) []int {
 }
 
 var schedDocs = []struct{ format, hex string }{
-	{"json", "7b2261223a5b312c322e352c2278225d7d"},   // {"a":[1,2.5,"x"]}
-	{"json", "5b312c32335d20"},                         // [1,23]<sp>
-	{"json", "313233"},                                 // 123 (number ended by EOF)
-	{"json", "31323320"},                               // 123<sp>
-	{"json", "22615c75303065395c6e22"},                 // "aé\n"
-	{"json", "5b6e756c6c2c747275652c66616c73655d"},     // [null,true,false]
-	{"json", "6e756c"},                                 // nul (truncated)
-	{"json", "5b312c"},                                 // [1,
-	{"json", "7b2261223a317d7b7d"},                     // {"a":1}{}
+	{"json", "7b2261223a5b312c322e352c2278225d7d"}, // {"a":[1,2.5,"x"]}
+	{"json", "5b312c32335d20"},                     // [1,23]<sp>
+	{"json", "313233"},                             // 123 (number ended by EOF)
+	{"json", "31323320"},                           // 123<sp>
+	{"json", "22615c75303065395c6e22"},             // "aé\n"
+	{"json", "5b6e756c6c2c747275652c66616c73655d"}, // [null,true,false]
+	{"json", "6e756c"},                             // nul (truncated)
+	{"json", "5b312c"},                             // [1,
+	{"json", "7b2261223a317d7b7d"},                 // {"a":1}{}
 	{"cbor", "a1616b9f0524c31901f4ff"},
 	{"cbor", "826568656c6c6f4401020304"},
 	{"cbor", "5f42010243030405ff"},
 	{"cbor", "fb3ff8000000000000"},
 	{"cbor", "1b0000000100000000"},
-	{"cbor", "a1616b9f0524"},                           // truncated
-	{"cbor", "7f6161"},                                 // truncated chunk sequence
+	{"cbor", "a1616b9f0524"}, // truncated
+	{"cbor", "7f6161"},       // truncated chunk sequence
 	{"cbor", "f97e00"},
 	{"cbor", "783061616161616161616161616161616161616161616161616161616161616161616161616161616161616161616161616161"},
 }
